@@ -60,6 +60,9 @@ def judge(prog, pop_descs, decisions, run, hoist=False):
             ref.stats, run, len(actual))
     if run.range:
         return Outcome(RANGE, repr(run.range[:3]), ref.stats, run, len(actual))
+    if run.leftovers and not (run.mon is not None and run.mon.exhausted):
+        return Outcome(VMFAULT, 'run ended with ' + '; '.join(run.leftovers),
+                       ref.stats, run, len(actual))
     if run.mon is not None and run.mon.faults:
         return Outcome(VMFAULT, '; '.join(run.mon.faults[:3]), ref.stats, run,
                        len(actual))
